@@ -8,9 +8,16 @@
    DA heights posted with their blob classes, scan iterations with the faults the DA double was scripted to
    answer with, includer runs, deaths, restarts): the mark events are then COMPUTED by the model from the DA
    content, and after every operation the scan cursor m.daHeight and the State.DAHeight found in the store are
-   compared as well. *)
+   compared as well.
+   Aggregator cases carry the history as groups of Model/IncluderAgg.v items as well ([ic_aops]: blocks produced,
+   iterations of the two submission loops with the ANSWERS the DA double was scripted to give — ids with a nil
+   error, errors of every class with or without ids, with or without the blobs being kept —, includer runs, deaths,
+   restarts) and the node's directory configuration ([ic_cfg]): the mark events are then COMPUTED by the model from
+   the answers (and must equal those the harness derives from the DA double's own record, [ic_ops]); after every
+   operation the two submission watermarks and the DA tip, at the end the content of the DA layer, after every
+   SaveCache the directory the cache files appeared in, and after every new process the cache lookups are compared. *)
 From Coq Require Import String NArith List Bool.
-From Verif Require Import Base.Keys Model.Includer Model.IncluderScan.
+From Verif Require Import Base.Keys Model.Includer Model.IncluderScan Model.IncluderAgg.
 Import ListNotations.
 Open Scope string_scope.
 Open Scope list_scope.
@@ -56,7 +63,15 @@ Record icase := {
   ic_keys : list (mkey * string);   (* sample of real datastore keys against [key_str] *)
   ic_full : bool;                   (* a full-node case: [ic_fops] is the history, [ic_ops] is unused *)
   ic_fops : list (list fitem);
-  ic_fobs : list (N * N)            (* after each operation: m.daHeight, State.DAHeight read back from the store *)
+  ic_fobs : list (N * N);           (* after each operation: m.daHeight, State.DAHeight read back from the store *)
+  ic_cfg : string * string;         (* config.RootDir (below the scratch directory), config.DBPath *)
+  ic_agg : bool;                    (* an aggregator case: [ic_aops] is the history, [ic_ops] the harness's own derivation of the marks *)
+  ic_aops : list (list aitem);
+  ic_aobs : list (N * N * N);       (* after each operation: last-submitted header height, data height, tip of the DA double *)
+  ic_dal : list (list blob);        (* aggregator: final content of the DA double, DA heights 1, 2, ... *)
+  ic_saved : list string;           (* per SaveCache (fault / restart operation): the directory below RootDir that holds cache files afterwards *)
+  ic_bmarks : list (list (N * option N) * list (N * option N))
+                                    (* after each crash / fault / restart operation: the lookups of [ic_hm] / [ic_dm] in the new process *)
 }.
 
 Definition next_included (s : node) : bool :=
@@ -100,12 +115,67 @@ Fixpoint frun_ops (s : fnode) (ops : list (list fitem)) : list (list item) * lis
   end.
 Definition pair_eqb (a b : N * N) : bool := (fst a =? fst b) && (snd a =? snd b).
 
+(* a group of aggregator items: the Includer items it amounts to, and the state after it *)
+Fixpoint arun_group (s : anode) (g : list aitem) : anode * list item :=
+  match g with
+  | [] => (s, [])
+  | i :: r => let its := aitems s i in
+              let '(s', rest) := arun_group (astep s i) r in (s', its ++ rest)
+  end.
+Fixpoint arun_ops (s : anode) (ops : list (list aitem)) : anode * list (list item) * list (N * N * N) :=
+  match ops with
+  | [] => (s, [], [])
+  | g :: r => let '(s', its) := arun_group s g in
+              let '(sf, gs, os) := arun_ops s' r in
+              (sf, its :: gs, (a_wh s', a_wd s', N.of_nat (length (a_dal s'))) :: os)
+  end.
+Definition triple_eqb (a b : N * N * N) : bool :=
+  let '(x, y, z) := a in let '(x', y', z') := b in (x =? x') && (y =? y') && (z =? z').
+
+Definition blk_eqb (a b : blk) : bool := (bh a =? bh b) && (bd a =? bd b).
+Definition item_eqb (a b : item) : bool :=
+  match a, b with
+  | IAppend x, IAppend y => blk_eqb x y
+  | IMarkH i d, IMarkH i' d' => (i =? i') && (d =? d')
+  | IMarkD i d, IMarkD i' d' => (i =? i') && (d =? d')
+  | IInclude, IInclude => true
+  | ICrash k, ICrash k' => Nat.eqb k k'
+  | IFault k, IFault k' => Nat.eqb k k'
+  | IRestart, IRestart => true
+  | _, _ => false
+  end.
+
+(* the states in which a new process has just started *)
+Definition is_boot_item (i : item) : bool := match i with ICrash _ | IFault _ | IRestart => true | _ => false end.
+Definition is_save_item (i : item) : bool := match i with IFault _ | IRestart => true | _ => false end.
+Fixpoint boot_states (s : node) (ops : list (list item)) : list node :=
+  match ops with
+  | [] => []
+  | g :: r => let s' := run_from s g in (if existsb is_boot_item g then [s'] else []) ++ boot_states s' r
+  end.
+Fixpoint all2 {A B} (f : A -> B -> bool) (a : list A) (b : list B) : bool :=
+  match a, b with
+  | [], [] => true
+  | x :: a', y :: b' => f x y && all2 f a' b'
+  | _, _ => false
+  end.
+Definition marks_agree (s : node) (o : list (N * option N) * list (N * option N)) : bool :=
+  forallb (fun e => optN_eqb (mget (hm s) (fst e)) (snd e)) (fst o)
+  && forallb (fun e => optN_eqb (mget (dm s) (fst e)) (snd e)) (snd o).
+
 (* 1 = observations differ, 2 = effect log differs, 3 = metadata image differs, 4 = cache marks differ,
    5 = a key builder differs, 6 = the height visible at an instant of death / fault differs,
-   7 = (full node) the scan cursor or the stored State.DAHeight differs *)
+   7 = (full node) the scan cursor or the stored State.DAHeight differs,
+   8 = (aggregator) a submission watermark or the tip of the DA layer differs after some operation,
+   9 = (aggregator) the content of the DA layer differs, 10 = (aggregator) the mark events the model computes from
+   the DA layer's answers are not those of the DA double's own record, 11 = a SaveCache did not leave the cache files
+   in the directory the model saves to (or their number differs from the clean shutdowns), 12 = the cache lookups
+   of a newly started process differ *)
 Definition check_case (c : icase) : list N :=
   let '(fgroups, fobs) := frun_ops (finit (ic_base c)) (ic_fops c) in
-  let ops := if ic_full c then fgroups else ic_ops c in
+  let cfg := {| c_root := fst (ic_cfg c); c_db := snd (ic_cfg c) |} in
+  let '(sa, agroups, aobs) := arun_ops (ainit cfg (ic_base c)) (ic_aops c) in
+  let ops := if ic_full c then fgroups else if ic_agg c then agroups else ic_ops c in
   let '(s, os) := run_ops (init (ic_base c)) ops in
   (if list_eqb obs_eqb os (ic_obs c) then [] else [1]) ++
   (if list_eqb eff_eqb (filter recordable (rev (tr s))) (ic_trace c) then [] else [2]) ++
@@ -114,7 +184,13 @@ Definition check_case (c : icase) : list N :=
       && forallb (fun e => optN_eqb (mget (dm s) (fst e)) (snd e)) (ic_dm c) then [] else [4]) ++
   (if forallb (fun e => String.eqb (key_str (fst e)) (snd e)) (ic_keys c) then [] else [5]) ++
   (if list_eqb N.eqb (deaths (init (ic_base c)) (concat ops)) (ic_death c) then [] else [6]) ++
-  (if negb (ic_full c) || list_eqb pair_eqb fobs (ic_fobs c) then [] else [7]).
+  (if negb (ic_full c) || list_eqb pair_eqb fobs (ic_fobs c) then [] else [7]) ++
+  (if negb (ic_agg c) || list_eqb triple_eqb aobs (ic_aobs c) then [] else [8]) ++
+  (if negb (ic_agg c) || list_eqb (list_eqb blob_eqb) (a_dal sa) (ic_dal c) then [] else [9]) ++
+  (if negb (ic_agg c) || list_eqb (list_eqb item_eqb) agroups (ic_ops c) then [] else [10]) ++
+  (if forallb (String.eqb (snd (save_dir cfg))) (ic_saved c)
+      && Nat.eqb (length (ic_saved c)) (length (filter is_save_item (concat ops))) then [] else [11]) ++
+  (if all2 marks_agree (boot_states (init (ic_base c)) ops) (ic_bmarks c) then [] else [12]).
 
 Fixpoint mismatches_from (i : N) (cs : list icase) : list (N * list N) :=
   match cs with
